@@ -32,6 +32,8 @@ func main() {
 	only := flag.String("rules", "", "comma-separated rule names (debug: run just these, no evidence)")
 	dump := flag.String("dump", "", "debug: dump explored paths of a function")
 	list := flag.Bool("list", false, "list properties and rules")
+	noinl := flag.Bool("noinline", false, "debug: explore without expanding helpers in place")
+	inl := flag.Bool("inl", false, "debug: list which functions are roots, boundaries, or expanded in place")
 	flag.Parse()
 	start := time.Now()
 	seed := 0
@@ -66,6 +68,24 @@ func main() {
 		if err != nil {
 			fmt.Println("LOAD ERROR:", err)
 			code = 2
+			return
+		}
+		w.NoInline = *noinl
+		resolveAnchors(w)
+		if *inl {
+			for _, f := range w.Funcs {
+				tag := "root     "
+				if w.covered(f) {
+					tag = "covered  "
+				} else if w.inlinable(f) {
+					tag = "inl+root "
+				}
+				if b := w.boundary[f]; b != "" {
+					tag = "boundary "
+				}
+				fmt.Println(tag, fnKey(f), w.boundary[f])
+			}
+			code = 0
 			return
 		}
 		if *dump != "" {
@@ -136,4 +156,16 @@ func main() {
 		code = report(w, p, results, known, *tier, seed, *evDir, start, extra)
 	}()
 	os.Exit(code)
+}
+
+// resolveAnchors resolves every rule's anchors before any rule runs, so that
+// the set of functions the explorer keeps opaque is final and the same for
+// all rules.
+func resolveAnchors(w *World) {
+	w.setInlineBudget(0)
+	machines(w)
+	Anchors(w)
+	Asm(w)
+	resolveQueue(w, newSimCtx(w))
+	w.setInlineBudget(maxInlineIfs)
 }
